@@ -184,10 +184,12 @@ def judge_process(m, seq):
     return None
 
 
-def judge_sequence(m1, seq1, m2, seq2):
+def judge_sequence(m1, seq1, m2, seq2, cut=None):
     """one PyKdebugParser object formats dump 1 and then dump 2: the lines of dump 2 must be those a fresh object gives (every line
     names the process THE DUMP declares - nothing carried over from the earlier dump)."""
     blob1, blob2 = dump(m1, seq1), dump(m2, seq2)
+    if cut is not None:
+        blob1 = blob1[:len(blob1) - cut]       # the first dump is truncated: formatting it raises part-way
     cfg = [True, False, False, True, True, False]
     for api in ('formatted_traces', 'formatted_kevents'):
         p = PyKdebugParser()
@@ -195,7 +197,11 @@ def judge_sequence(m1, seq1, m2, seq2):
         for k, v in zip(SW, cfg):
             setattr(p, k, v)
         try:
-            list(getattr(p, api)(io.BytesIO(blob1), tcodes()))
+            try:
+                list(getattr(p, api)(io.BytesIO(blob1), tcodes()))
+            except Exception:
+                if cut is None:
+                    raise
             got = list(getattr(p, api)(io.BytesIO(blob2), tcodes()))
         except Exception as ex:
             return ('formatting-raised:' + type(ex).__name__, {'api': api, 'error': repr(ex)[:200]})
@@ -249,7 +255,7 @@ class C14(Check):
             'thread-data, unrelated record) x thread maps {empty, 1 entry, 2 entries, 3 entries whose tids collide with other entries\' pids, pids 2^31 and 2^32-1}, through formatted_kevents and '
             'formatted_traces (+ one callstack dump through formatted_callstacks, one v3 log dump through formatted_logs); plus the command-line tool\'s --show-tid / --color switches against the library; plus dump '
             'SEQUENCES: one parser object formats a first dump (1 item quick / <=2 thorough, any map) and then a second (<=2 items, '
-            'any map) - the second dump\'s lines must equal a fresh object\'s. '
+            'any map) - the second dump\'s lines must equal a fresh object\'s, also when the first dump was truncated and formatting it raised. '
             'Oracle: line(config) == concatenation in fixed order of the single-column renderings; ANSI-stripped coloured line == '
             'plain line; process column == reference table evolution (thread map, then updates in stream order) rendered '
             'name(pid), or "Error: tid N" for a never-declared thread. states = distinct (switch setting, colour); transitions = '
@@ -332,10 +338,11 @@ class C14(Check):
             for seq1 in seq1s:
                 for m2 in range(len(MAPS)):
                     for seq2 in seqs(range(len(ALPHA)), 2, 1):
-                        bad = judge_sequence(m1, seq1, m2, seq2)
+                      for cut in (None, 20, 70):
+                        bad = judge_sequence(m1, seq1, m2, seq2, cut)
                         acc.case(nontrivial=True, transitions=4, outcome=h64((m1, seq1, m2, seq2)) if len(seq2) == 1 else None)
                         if bad:
-                            acc.violation(bad[0], {'kind': 'sequence', 'm1': m1, 'seq1': list(seq1), 'm2': m2, 'seq2': list(seq2),
+                            acc.violation(bad[0] + (':after-a-failed-dump' if cut else ''), {'kind': 'sequence', 'm1': m1, 'seq1': list(seq1), 'm2': m2, 'seq2': list(seq2), 'cut': cut,
                                                    'readable': [[ALPHA[i][0] for i in seq1], [ALPHA[i][0] for i in seq2]]}, bad[1])
         else:
             bad, n = judge_compose(callstack_dump(), 'formatted_callstacks')
@@ -359,7 +366,9 @@ class C14(Check):
             self.run_shard(('cli',), acc)
             return [(sig, v['cases'][0][1]) for sig, v in acc.violations.items()]
         elif k == 'sequence':
-            bad = judge_sequence(case['m1'], tuple(case['seq1']), case['m2'], tuple(case['seq2']))
+            bad = judge_sequence(case['m1'], tuple(case['seq1']), case['m2'], tuple(case['seq2']), case.get('cut'))
+            if bad and case.get('cut'):
+                bad = (bad[0] + ':after-a-failed-dump', bad[1])
         elif k == 'callstacks':
             bad, _ = judge_compose(callstack_dump(), 'formatted_callstacks')
         else:
